@@ -249,6 +249,7 @@ func permutationsOf(n int) [][]int {
 }
 
 func c05Run(e *core.Env) {
+	runLitmus(e)
 	drv := e.Driver()
 	pool := c05Pool()
 	maxK := core.Pick(e, 3, 4)
